@@ -74,6 +74,17 @@ def run_case(c):
     quantize(model, weights=QT[c["weights"]], activations=QT[c["activations"]], **({"optimizer": make_optimizer(c["optimizer"], c["weights"])} if c.get("optimizer") else {}))
     probes = [(torch.randn(*c["input"], generator=gen) * s).to(dtype) for s in (1.0, 3.0)]
     log = []
+    if c.get("qinput"):
+        # a third probe that is ALREADY quantized (what an upstream quantized module, or the caller, hands over); dropped when the
+        # model does not accept it in its initial state
+        try:
+            from optimum.quanto import absmax_scale, quantize_activation
+            qp = quantize_activation(probes[0], QT[c["qinput"]], absmax_scale(probes[0], QT[c["qinput"]]))
+            with torch.no_grad():
+                model(qp)
+            probes.append(qp)
+        except Exception:  # noqa: BLE001
+            pass
     with torch.no_grad():
         init_out = [out_bits(model(x)) for x in probes]
         for step in c["history"]:
